@@ -20,7 +20,7 @@ RULE = (
     "machines_per_operation as int or range with max <= smallest machine "
     "count, allow_recirculation, allow_less_jobs_than_machines (when False "
     "the ranges satisfy jobs_lo >= machines_lo), name_suffix, seed (0 "
-    "included), iteration_limit 0..12 - x a usage pattern (helpers = public create_random_operation() calls with and without a pool between instances; sequential, two "
+    "included), iteration_limit 0..12 - x a usage pattern (copied = a deep copy / pickle round trip of the generator continues the sequence; helpers = public create_random_operation() calls with and without a pool between instances; sequential, two "
     "generators interleaved, other users of the global random module in "
     "between, generate() mixed with iteration on one of them, explicit generate(num_jobs=..), generate(num_jobs=.., "
     "num_machines=..) calls). Oracle per generated instance: job count in "
@@ -77,7 +77,7 @@ def strategy(tier):
     return st.fixed_dictionaries(
         {
             "params": _params(),
-            "pattern": gen.pick(["sequential", "interleaved", "global_rng", "explicit", "mixed", "helpers"]),
+            "pattern": gen.pick(["sequential", "interleaved", "global_rng", "explicit", "mixed", "helpers", "copied"]),
             "n": st.integers(1, 10),
             "extra": st.lists(st.integers(0, 1000), min_size=1, max_size=6),
         }
@@ -180,6 +180,18 @@ def check_case(case, ctx):
         for i in range(n):
             seq2.append(g2.generate())
             random.randint(0, 10)
+    elif pattern == "copied":
+        # the generator is deep-copied / pickled after some instances; the
+        # copy carries the seed's stream on exactly like the original
+        import copy as _copy
+        import pickle as _pickle
+
+        a = extra[0] % 3
+        seq1 = [g1.generate() for _ in range(a)]
+        seq2 = [g2.generate() for _ in range(a)]
+        gc = _copy.deepcopy(g1) if extra[-1] % 2 else _pickle.loads(_pickle.dumps(g1))
+        seq1 += [g1.generate() for _ in range(n)]
+        seq2 += [gc.generate() for _ in range(n)]
     elif pattern == "helpers":
         # the public create_random_operation() is called between instances
         # (with no pool: "all machines are available"; or with a pool of the
